@@ -254,6 +254,130 @@ pub fn main(args: &[String]) {
                 }
             });
         }
+        Some("packed") => {
+            // PackedHostile.tla streams inside a raw one-glyph gvar table, through TupleVariation::deltas
+            use read_fonts::tables::gvar::Gvar;
+            use read_fonts::{FontData, FontRead};
+            let path = arg_after(args, "--cases").expect("--cases");
+            let mut hung = false;
+            fvcore::tlc_stream(&path, &["PACKED"], |_, c| {
+                if hung {
+                    return;
+                }
+                rep.evaluations += 1;
+                let bytes = |v: &Value| -> Vec<u8> { v.as_array().unwrap().iter().map(|x| x.as_u64().unwrap() as u8).collect() };
+                let (pts, dl) = (bytes(&c["points"]), bytes(&c["deltas"]));
+                let npoints = c["npoints"].as_u64().unwrap() as usize;
+                let mut ser = pts.clone();
+                ser.extend(&dl);
+                let mut gvd: Vec<u8> = vec![0, 1, 0, 10];
+                gvd.extend((ser.len() as u16).to_be_bytes());
+                gvd.extend([0xA0, 0x00, 0x40, 0x00]); // embedded peak + private points; peak = 1.0
+                gvd.extend(&ser);
+                let mut t: Vec<u8> = vec![0, 1, 0, 0, 0, 1, 0, 0];
+                t.extend(28u32.to_be_bytes()); // shared tuples offset (none)
+                t.extend([0, 1, 0, 1]); // glyph count 1, long offsets
+                t.extend(28u32.to_be_bytes()); // data array offset
+                t.extend(0u32.to_be_bytes());
+                t.extend((gvd.len() as u32).to_be_bytes());
+                t.extend(&gvd);
+                let case = json!({"kind": "packed-case", "points": pts, "deltas": dl});
+                let r = crate::drive::with_deadline(10, move || {
+                    let gvar = Gvar::read(FontData::new(&t)).map_err(|e| format!("{e:?}"))?;
+                    let Some(data) = gvar.glyph_variation_data(font_types::GlyphId::new(0)).map_err(|e| format!("{e:?}"))? else { return Ok::<_, String>((0usize, 0usize)) };
+                    let mut tuples = 0;
+                    let mut yields = 0;
+                    for tv in data.tuples().take(16) {
+                        tuples += 1;
+                        yields += tv.deltas().take(100_000).count();
+                    }
+                    Ok((tuples, yields))
+                });
+                match r {
+                    None => {
+                        hung = true;
+                        rep.violation("iterating the deltas of a gvar tuple gave no result within 10 s", case)
+                    }
+                    Some(Err(p)) => rep.violation(&format!("iterating the deltas of a gvar tuple panicked: {p}"), case),
+                    Some(Ok(Err(_))) => {
+                        ev.push(json!({"op": "packed", "outcome": "error", "yields": 0, "npoints": npoints}));
+                    }
+                    Some(Ok(Ok((_, yields)))) => {
+                        if yields > npoints {
+                            rep.violation(&format!("a tuple listing {npoints} points yielded {yields} deltas"), case);
+                        }
+                        ev.push(json!({"op": "packed", "outcome": "value", "yields": yields, "npoints": npoints}));
+                        rep.distinct += 1;
+                    }
+                }
+            });
+        }
+        Some("cmapiter") => {
+            // CmapIter.tla group lists as raw cmap subtables through the real iterators
+            use read_fonts::tables::cmap::{Cmap, Cmap12IterLimits, CmapSubtable};
+            use read_fonts::{FontData, FontRead};
+            let path = arg_after(args, "--cases").expect("--cases");
+            fvcore::tlc_stream(&path, &["ITER"], |_, c| {
+                rep.evaluations += 1;
+                let fmt = c["fmt"].as_u64().unwrap();
+                let groups: Vec<(u32, u32, u32)> = c["groups"].as_array().unwrap().iter().map(|g| (g[0].as_u64().unwrap() as u32, g[1].as_u64().unwrap() as u32, g[2].as_u64().unwrap() as u32)).collect();
+                let mut t: Vec<u8> = vec![0, 0, 0, 1, 0, 3, 0, if fmt == 4 { 1 } else { 10 }, 0, 0, 0, 12];
+                if fmt == 4 {
+                    let n = groups.len() as u16;
+                    let len = 16 + 8 * n;
+                    for v in [4u16, len, 0, n * 2, 0, 0, 0] {
+                        t.extend(v.to_be_bytes());
+                    }
+                    for g in &groups {
+                        t.extend((g.1 as u16).to_be_bytes());
+                    }
+                    t.extend([0, 0]);
+                    for g in &groups {
+                        t.extend((g.0 as u16).to_be_bytes());
+                    }
+                    for g in &groups {
+                        t.extend((g.2 as u16).to_be_bytes());
+                    }
+                    t.extend(std::iter::repeat(0u8).take(2 * groups.len()));
+                } else {
+                    t.extend([0, 12, 0, 0]);
+                    t.extend((16 + 12 * groups.len() as u32).to_be_bytes());
+                    t.extend([0u8; 4]);
+                    t.extend((groups.len() as u32).to_be_bytes());
+                    for g in &groups {
+                        t.extend(g.0.to_be_bytes());
+                        t.extend(g.1.to_be_bytes());
+                        t.extend(g.2.to_be_bytes());
+                    }
+                }
+                let want: Vec<u32> = c["yields"].as_array().unwrap().iter().map(|x| x.as_u64().unwrap() as u32).collect();
+                let case = json!({"kind": "cmapiter-case", "fmt": fmt, "groups": groups});
+                let r = guarded(|| {
+                    let cmap = Cmap::read(FontData::new(&t)).map_err(|e| format!("{e:?}"))?;
+                    let sub = cmap.encoding_records()[0].subtable(cmap.offset_data()).map_err(|e| format!("{e:?}"))?;
+                    let got: Vec<u32> = match sub {
+                        CmapSubtable::Format4(s) => s.iter().take(300_000).map(|x| x.0).collect(),
+                        CmapSubtable::Format12(s) => s.iter_with_limits(Cmap12IterLimits { max_char: 34, glyph_count: 40 }).take(300_000).map(|x| x.0).collect(),
+                        _ => return Err("unexpected subtable format".to_string()),
+                    };
+                    Ok(got)
+                });
+                match r {
+                    Err(p) => rep.violation(&format!("cmap iteration panicked: {p}"), case),
+                    Ok(Err(e)) => rep.violation(&format!("raw cmap subtable does not read: {e}"), case),
+                    Ok(Ok(got)) => {
+                        let bound = if fmt == 4 { 65536 } else { 35 };
+                        if got.windows(2).any(|w| w[0] >= w[1]) || got.len() > bound {
+                            rep.violation(&format!("cmap format {fmt} iteration over groups {groups:?} is not clamped: {} code points, not strictly ascending: {:?}", got.len(), &got[..got.len().min(40)]), case);
+                        } else if got != want {
+                            rep.add("yields_differ_from_model", 1);
+                        }
+                        ev.push(json!({"op": "cmapiter", "fmt": fmt, "n": got.len(), "same": got == want}));
+                        rep.distinct += 1;
+                    }
+                }
+            });
+        }
         _ => {
             eprintln!("usage: fv-total c01 record --sessions s.json --out t.ndjson [--per-table N] | mutate --sessions s.json --muts tlc.out --out x");
             std::process::exit(2)
